@@ -23,7 +23,10 @@ Spec:   spec/MofCompile.tla      requirement machine (Total, PositionInside,
         then any qualifier/class/instance production, H class production
         that fails, then a LATER compile call (same compiler, same
         repository) that names the class although no valid declaration of it
-        exists anywhere (rejected or accepted, never another exception).
+        exists anywhere (rejected or accepted, never another exception),
+        I a valid text that runs a nested compile, then a LATER compile call
+        whose text is one defective production (error positioned inside the
+        later text whatever the earlier texts looked like).
         Systematic dimensions: every optional part of every production
         present/absent in every combination (`opt*` variants); lexeme classes
         of the include file name (NUL, surrogate, over-long, below a file..).
@@ -60,6 +63,11 @@ LEGACY = [
      "compile_embedded_value restores parser.mof only after a single string: "
      "an error after an array of embedded values indexes the wrong text "
      "(IndexError)", True),
+    ("MofCompileImplLegacyEmbLexer.cfg", "PositionLineOK",
+     "compile_embedded_value tokenizes the nested text with the compiler's "
+     "base lexer instead of a clone: the line ends of nested texts "
+     "accumulate, errors in every text compiled afterwards (include file, "
+     "later call, later nested text) report a line beyond its end", True),
     ("MofCompileImplLegacySuper.cfg", "ImplRefinesReq",
      "MOFWBEMConnection.CreateClass stores the class before it looks the "
      "superclass up: 'class X : X' is accepted, an instance of it recurses "
@@ -121,7 +129,12 @@ PLAIN = {("qualDecl", "none", "plain"), ("class", "none", "plain"),
 # valid helper productions of the session parts D (nested compile, then an
 # error) and E (declare, then use) of spec/MofCompile.tla
 NESTED = {("instance", "none", "emb_ok"), ("instance", "none", "emb_array_ok"),
-          ("instance", "none", "emb_array_one")}
+          ("instance", "none", "emb_array_one"),
+          ("instance", "none", "emb_multiline"),
+          ("instance", "none", "emb_array_multiline")}
+# ... whose nested texts have line ends (EmbLines of the spec)
+MULTILINE = {"emb_multiline", "emb_array_multiline"}
+ERRCLASSES = ("lex", "syntax", "value", "dependency")
 OFPREV = ("instance", "none", "of_prev")
 SUBOFPREV = ("class", "none", "sub_of_prev")
 NSFULL = ("namespace", "none", "other_full")
@@ -192,9 +205,16 @@ def pkey(p):
 
 
 def part_of(ses):
-    """"D1"/"D2"/"E2"/"E3" for the sessions of SessionsD/SessionsE, else None.
+    """"D1"/"D2"/"D3"/"E2"/"E3"/"F"/"G"/"H"/"I" for the sessions of the parts
+    D..I of the spec, else None.
     Returns (part, helper production, focus production)."""
     m, i = ses["main"], ses["inc"]
+    if ses.get("good") and ses["good"][0]["d"] in ERRCLASSES:
+        return "I", m[0], ses["good"][0]
+    if len(m) == 2 and len(i) == 1 and pkey(m[0]) in NESTED and \
+            pkey(m[1]) == ("include", "none", "inc2") and \
+            i[0]["d"] in ERRCLASSES:
+        return "D3", m[0], i[0]
     if ses.get("good"):
         return ("H" if ses["good"][0]["v"].endswith("_undeclared") else "F",
                 ses["good"][0], m[0])
@@ -231,6 +251,10 @@ def focus_name(ses):
         return "%s>%s.%s/%s" % (pname(f), h["k"], h["v"], NAMESPELL[h["a"]])
     if part and part[0] == "G":
         return "namespace.other_full>" + pname(part[2])
+    if part and part[0] in ("I", "D3"):
+        _, h, f = part
+        return "%s.%s>%s>%s" % (h["k"], h["v"], "later" if part[0] == "I"
+                                else "include", pname(f))
     if part:
         _, h, f = part
         one, two = pname(f), "%s.%s" % (h["k"], h["v"])
@@ -318,18 +342,31 @@ def select(ctx, sessions, quick):
     # ---- part D: nested compile (embedded value), then a defective
     # production.  quick: per nested variant, form and (kind, defect class) of
     # the defective production 2 (D1) / 1 (D2) representatives; thorough: all
+    # D3 (the error stands in a file included AFTER the nested compile: its
+    # lexer is created after the nested one ran) and part I (the error stands
+    # in the text of a LATER call on the same compiler object; never mockapi:
+    # a new compiler per call): quick: 1 representative per group for the
+    # nested variants whose texts have line ends, for the single-line ones
+    # every third group; thorough: all
     n_d = 0
-    for pn in ("D1", "D2"):
+    for pn in ("D1", "D2", "D3", "I"):
         groups = {}
         for s, h, f in parts.get(pn, []):
             groups.setdefault((h["v"], f["k"], f["d"]), []).append(s)
-        for g in sorted(groups):
+        combos = F_COMBOS if pn == "I" else COMBOS
+        for gi, g in enumerate(sorted(groups)):
             cands = groups[g]
             if quick:
-                cands = rng.sample(cands, min(len(cands),
-                                              2 if pn == "D1" else 1))
+                multi = g[0] in MULTILINE
+                if pn == "D1":
+                    k = 1 if multi else 2
+                elif pn == "D2":
+                    k = 1 if not multi or gi % 2 == 0 else 0
+                else:
+                    k = 1 if multi or gi % 3 == 0 else 0
+                cands = rng.sample(cands, min(len(cands), k))
             for s in cands:
-                add(s, *COMBOS[n_d % len(COMBOS)])
+                add(s, *combos[n_d % len(combos)])
                 n_d += 1
     # ---- part E: a class production, then an instance of that class (of a
     # subclass of it).  MOFWBEMConnection is the repository whose class store
@@ -719,6 +756,7 @@ def run(ctx):
                 label="code-shaped compile machine (intended shape) refines "
                 "the requirement for every session of <= %d productions "
                 "(+ include file); invariants ImplRefinesReq, PositionFileOK, "
+                "PositionLineOK, "
                 "Reusable; liveness Termination; exports the sessions"
                 % (3 if quick else 4))
     ex = r.printed("EXPORT")
